@@ -57,9 +57,61 @@ def run_mutants(mod, ck: Check, repo: Repo):
             rec["caught"] = bool(hit)
             rec["status"] = "reported: " + "; ".join("%s@%s:%s" % (v.rule, v.func, v.line) for v in (hit or newv)[:3]) if (hit or newv) else "silent"
         except AnalysisError as e:
-            # fail-closed also counts as noticed (the checker did not pass the mutant)
+            # fail-closed also counts as noticed (the checker did not pass the mutant); a violation
+            # recorded before the undecidable site stands
+            newv = [v for v in sub.violations if v.key not in base_keys]
             rec["caught"] = True
-            rec["status"] = "analysis-error: %s" % e
+            rec["status"] = ("reported: " + "; ".join("%s@%s:%s" % (v.rule, v.func, v.line) for v in newv[:3])) if newv else "analysis-error: %s" % e
+        ck.mutants.append(rec)
+
+
+def run_seeded(mod, ck: Check, repo: Repo):
+    """Thorough tier: apply every kept red-team change for this property
+    (/verif/seeded/<name>/patch.diff, written by sub-agents that saw only the
+    property text) to a scratch copy of the *current* tornado package and run the
+    same rules on it.  Results go to the evidence; a miss is printed, never hidden.
+    The scratch copy is removed immediately; /repo is not touched."""
+    import json
+    import shutil
+    import subprocess
+    import tempfile
+
+    sd = os.path.join(os.path.dirname(HERE), "seeded")
+    if not os.path.isdir(sd):
+        return
+    base_keys = {v.key for v in ck.violations}
+    for name in sorted(os.listdir(sd)):
+        d = os.path.join(sd, name)
+        mf = os.path.join(d, "meta.json")
+        if not (os.path.isfile(mf) and os.path.isfile(os.path.join(d, "patch.diff"))):
+            continue
+        try:
+            meta = json.load(open(mf))
+        except Exception:
+            continue
+        if (meta.get("breaks_property") or meta.get("property")) != ck.pid or meta.get("kind") == "refactor":
+            continue
+        rec = {"name": "seeded/" + name, "expect_rule": None, "caught": False, "status": ""}
+        tmp = tempfile.mkdtemp(prefix="vt-seeded-")
+        try:
+            shutil.copytree(os.path.join(repo.root, "tornado"), os.path.join(tmp, "tornado"), ignore=shutil.ignore_patterns("__pycache__", "*.so", "test"))
+            p = subprocess.run(["patch", "-p1", "-s", "-d", tmp, "-i", os.path.join(d, "patch.diff")], stdout=subprocess.PIPE, stderr=subprocess.STDOUT, text=True)
+            if p.returncode != 0:
+                rec["status"] = "not-applicable: patch does not apply to this tree"
+                rec["caught"] = True
+            else:
+                sub = Check(ck.pid, Repo(tmp), "thorough", quiet=True)
+                try:
+                    mod.run(sub)
+                    newv = [v for v in sub.violations if v.key not in base_keys]
+                    rec["caught"] = bool(newv)
+                    rec["status"] = ("reported: " + "; ".join("%s@%s" % (v.rule, v.func) for v in newv[:3])) if newv else "silent"
+                except AnalysisError as e:
+                    newv = [v for v in sub.violations if v.key not in base_keys]
+                    rec["caught"] = True
+                    rec["status"] = ("reported: " + "; ".join("%s@%s" % (v.rule, v.func) for v in newv[:3])) if newv else "analysis-error: %s" % e
+        finally:
+            shutil.rmtree(tmp, ignore_errors=True)
         ck.mutants.append(rec)
 
 
@@ -90,6 +142,7 @@ def main(argv=None) -> int:
             mod.run(ck)
             if args.tier == "thorough" and not args.no_mutants:
                 run_mutants(mod, ck, repo)
+                run_seeded(mod, ck, repo)
             code = ck.finish()
         except AnalysisError as e:
             code = (ck or Check(pid, repo, args.tier)).finish(error=str(e))
